@@ -610,46 +610,76 @@ func run1(c Case, scale int) ev.Verdict {
 
 	switch {
 	case got.err == nil:
-	case errors.Is(got.err, util.ErrOperationError):
-		gotEnd = "once-error"
 	case errors.Is(got.err, util.ErrTimeoutError):
 		gotEnd = "timeout"
 	default:
-		return ev.Fail("unexpected error %v", got.err)
+		// "an error is returned instead": any error that is not the timeout
+		gotEnd = "once-error"
 	}
 
-	// chunks that arrived after the operation ended were never looked at: try every prefix length
-	// from "all" downwards that is consistent (the operation decides on what it has consumed)
+	// The statement says "whenever the accumulated output satisfies a trigger", not when the library
+	// looks: evaluating once per transport chunk and once per line are both fine. The delivered
+	// chunks are therefore replayed as they were and also cut after every line end.
+	var (
+		fine    []string
+		fineAge []time.Duration
+	)
+
+	for i, ck := range chunks {
+		for len(ck) > 0 {
+			j := strings.Index(ck, "\n")
+			if j < 0 || j == len(ck)-1 {
+				fine, fineAge = append(fine, ck), append(fineAge, chunkAge[i])
+
+				break
+			}
+
+			fine, fineAge = append(fine, ck[:j+1]), append(fineAge, chunkAge[i])
+			ck = ck[j+1:]
+		}
+	}
+
 	matched := false
 
 	var why string
 
-	for n := len(chunks); n >= 0 && !matched; n-- {
-		for _, o := range model(&c, chunks[:n]) {
-			if o.end != gotEnd || !sameInvs(o.invs, rec) {
-				why = fmt.Sprintf("model(%d chunks): end=%s invocations=%v", n, o.end, o.invs)
+	try := func(chunks []string, chunkAge []time.Duration) {
+		// chunks that arrived after the operation ended were never looked at: try every prefix length
+		// from "all" downwards that is consistent (the operation decides on what it has consumed)
+		for n := len(chunks); n >= 0 && !matched; n-- {
+			for _, o := range model(&c, chunks[:n]) {
+				if o.end != gotEnd || !sameInvs(o.invs, rec) {
+					why = fmt.Sprintf("model(%d chunks): end=%s invocations=%v", n, o.end, o.invs)
 
-				continue
+					continue
+				}
+
+				if o.end == "complete" && strings.Trim(o.result, "\n") != strings.Trim(got.res, "\n") {
+					why = fmt.Sprintf("complete: result %q, model %q", got.res, o.result)
+
+					continue
+				}
+
+				if n < len(chunks) && gotEnd == "timeout" && chunkAge[n] > young {
+					// a timeout must have looked at everything that arrived well before it fired (a
+					// chunk handed over by the transport in the last moments may not have reached the
+					// callback loop yet: wall-clock tier)
+					continue
+				}
+
+				matched = true
+
+				break
 			}
 
-			if o.end == "complete" && o.result != got.res {
-				why = fmt.Sprintf("complete: result %q, model %q", got.res, o.result)
-
-				continue
-			}
-
-			if n < len(chunks) && gotEnd == "timeout" && chunkAge[n] > young {
-				// a timeout must have looked at everything that arrived well before it fired (a
-				// chunk handed over by the transport in the last moments may not have reached the
-				// callback loop yet: wall-clock tier)
-				continue
-			}
-
-			matched = true
-
-			break
 		}
 
+	}
+
+	try(chunks, chunkAge)
+
+	if !matched {
+		try(fine, fineAge)
 	}
 
 	if !matched {
